@@ -37,7 +37,8 @@ def one(sid):
         r = subprocess.run(['timeout', '180', '/venv/bin/python', d + '/demo.py'], env=dict(os.environ, PYTHONPATH='/repo'),
                            capture_output=True, text=True, cwd='/repo')
         rec['demo_exit_unchanged'] = r.returncode
-        todo = all_ids if allc else sorted(set([meta['property']] + list(meta.get('caught_by', []))))
+        todo = all_ids if allc else sorted(set([meta['property']] + list(meta.get('caught_by', [])) +
+                                          list((meta.get('reverified') or {}).get('caught_by', []))))
         env = dict(os.environ, RV_REPO=wt, RV_OUT=wt + '/_rv_out')
         res = {}
         for i in todo:
